@@ -56,6 +56,9 @@ static const char *conditions_cz[] =
   "_set",
 };
 
+static const char *effects_c[] = { "wc", "andc", "orc", "xorc" };
+static const char *effects_z[] = { "wz", "andz", "orz", "xorz" };
+
 int disasm_propeller2(
   Memory *memory,
   uint32_t address,
@@ -71,6 +74,7 @@ int disasm_propeller2(
   int cond;
   int wz, wc, wcz;
   int need_effect = 0;
+  int logic = LOGIC_NONE;
   uint32_t value;
 
   *cycles_min = -1;
@@ -107,9 +111,26 @@ int disasm_propeller2(
       continue;
     }
 
+    // testb / testp (wc or wz, never both) have the same opcodes as
+    // bitl / dirl and friends (wcz or nothing).
+    if (table_propeller2[n].wc == 1 &&
+        table_propeller2[n].wz == 1 &&
+        table_propeller2[n].wcz == 0)
+    {
+      if (wc == wz) { continue; }
+    }
+
+    if (table_propeller2[n].wc == 0 &&
+        table_propeller2[n].wz == 0 &&
+        table_propeller2[n].wcz == 1)
+    {
+      if (wc != wz) { continue; }
+    }
+
     *cycles_min = table_propeller2[n].cycles8_min;
     *cycles_max = table_propeller2[n].cycles8_min;
     instr = table_propeller2[n].instr;
+    logic = table_propeller2[n].logic;
 
     if (table_propeller2[n].operand_count == 0) { condition = ""; }
 
@@ -350,8 +371,8 @@ int disasm_propeller2(
   if (need_effect != 0)
   {
     if (need_effect == 2) { strcat(operands, ", "); }
-    if (wc == 1) { strcat(operands, "wc"); }
-    if (wz == 1) { strcat(operands, "wz"); }
+    if (wc == 1) { strcat(operands, effects_c[logic]); }
+    if (wz == 1) { strcat(operands, effects_z[logic]); }
     if (wcz == 1) { strcat(operands, "wcz"); }
   }
 
